@@ -177,6 +177,13 @@ func c18zRun(o *out, input string) {
 	// a handler may return errors that are not gRPC statuses, io.EOF and context.Canceled among them
 	var herr error
 	hk, _, _ := strings.Cut(f[1], "@")
+	// "+hkey" / "hkey": the handler first sets header metadata under a key that cannot be sent; whatever becomes of that
+	// header, the RPC that began ends (one End event) and the client is told what the handler returned
+	hk, hkey := strings.CutSuffix(hk, "+hkey")
+	if hk == "hkey" {
+		hkey = true
+	}
+	badMD := metadata.MD{"Bad Key": []string{"v"}, "x-fine": []string{"1"}}
 	switch hk {
 	case "herr-eof":
 		herr = io.EOF
@@ -189,12 +196,18 @@ func c18zRun(o *out, input string) {
 	}
 	impl := &dynImpl{
 		Unary: func(ctx context.Context, method string, req proto.Message, out protoreflect.MessageDescriptor) (proto.Message, error) {
+			if hkey {
+				grpc.SetHeader(ctx, badMD) //nolint
+			}
 			if herr != nil {
 				return nil, herr
 			}
 			return dynamicpb.NewMessage(out), nil
 		},
 		Stream: func(method string, in, out protoreflect.MessageDescriptor, ss grpc.ServerStream) error {
+			if hkey {
+				ss.SetHeader(badMD) //nolint
+			}
 			for {
 				if err := ss.RecvMsg(dynamicpb.NewMessage(in)); err != nil {
 					break
@@ -239,7 +252,7 @@ func c18zRun(o *out, input string) {
 	r := httptest.NewRequest("POST", path, bytes.NewReader(body))
 	r.Header.Set("Content-Type", "application/json")
 	r.Header.Set("Content-Encoding", enc)
-	if base, proto_, ok := strings.Cut(f[1], "@"); ok && strings.HasPrefix(base, "herr-") {
+	if base, proto_, ok := strings.Cut(f[1], "@"); ok && (strings.HasPrefix(base, "herr-") || base == "hkey") {
 		// the failing handlers also over gRPC / gRPC-web (one empty request message)
 		m := "Un"
 		if len(f) > 2 && f[2] == "up" {
@@ -291,6 +304,7 @@ func c18zRun(o *out, input string) {
 func c18tGen(o *out) {
 	for _, v := range []string{"okgzip", "badgzip", "emptygzip", "truncgzip", "shortgzip", "unknownenc", "herr-eof", "herr-canceled", "herr-plain", "herr-status",
 		"herr-eof@grpc", "herr-canceled@grpc", "herr-plain@grpc", "herr-eof@web", "herr-canceled@web", "herr-status@web", "badquery",
+		"hkey@grpc", "hkey@web", "herr-plain+hkey@grpc", "herr-status+hkey@web", "herr-eof+hkey@grpc",
 		"timeout:5x", "timeout:S", "timeout:-1S", "timeout:123456789S", "timeout:1.5S", "timeout:10S", "timeout:5x@web", "timeout:S@web", "timeout:10S@web"} {
 		for _, sh := range []string{"un", "up"} {
 			o.count("C18Z")
